@@ -98,6 +98,10 @@ class Unit:
     # when set: only failed obligations whose verifier text mentions one of these fragments count for this unit's property;
     # any other failure (clauses the unit shares with another property's unit) makes the unit UNDECIDED, never an alarm
     clause_scope: list = field(default_factory=list)
+    # determinism units (C13): the contract pins ONE function of the input; a failed proof refutes determinism only when the verified text
+    # walks a collection in an unspecified order (one of these stub names occurs in it) — otherwise the code still computes *a* function of
+    # its input, just not the recorded one, and the honest answer is UNDECIDED
+    alarm_only_with: list = field(default_factory=list)
 
 
 _src_cache = {}
@@ -224,6 +228,7 @@ def annotate_fn(text, item: Fn, log, where):
     # ghost inserts.  anchor forms:
     #   "@entry"                 start of the function body
     #   "@loop:k:body"           start of the k-th loop's body
+    #   "@loop-body:REGEX"       start of the body of the first loop whose header matches REGEX
     #   text, pos 'before'/'after'            exact offsets around the exact text
     #   text, pos 'line-before'/'line-after'  text is a fragment; insert at the start of its line / after the end of its line
     for g in item.ghost:
@@ -256,6 +261,14 @@ def annotate_fn(text, item: Fn, log, where):
             if k >= len(loops):
                 raise AnchorLost(f"{where}: loop #{k} not found for ghost anchor")
             inserts.append((match_delim(m, body_open + loops[k][1]), "\n" + gt + "\n"))
+            continue
+        mh = re.match(r"@loop-body:(.+)$", anchor)
+        if mh:
+            # start of the body of the first loop whose header matches the regex (independent of the loop's ordinal)
+            hit = [lp for lp in loops if re.search(mh.group(1), text[body_open + lp[0]:body_open + lp[1]])]
+            if not hit:
+                raise AnchorLost(f"{where}: no loop header matches {mh.group(1)!r} for ghost anchor")
+            inserts.append((body_open + hit[0][1] + 1, "\n" + gt + "\n"))
             continue
         ma = re.match(r"@after-loop:(.+)$", anchor)
         if ma:
